@@ -1,5 +1,8 @@
 """C04 LRU caches: exhaustive TLC on specs/lru/LRU.tla, plans from LRU_Gen replayed into
-cache.LRUCache / tiny.LRUCache / wide variants, every recorded trace validated by LRU_Trace."""
+cache.LRUCache / tiny.LRUCache / wide variants, every recorded trace validated by LRU_Trace.
+Histories also vary the dynamic kinds of keys and values, reconfigure the cache mid-way, take it through
+shape classes, and run past counter widths (run events: n calls as one event, applied by the trace
+specification through the methods as functions, whole periods of a periodic run at once)."""
 
 
 def run(ctx):
@@ -24,15 +27,15 @@ def run(ctx):
             ctx.apalache_ind(fam, "LRU_Ind", next_=part, cinit="CInit", timeout=1800,
                              label="LRU_Ind: IndInv inductive under %s; capacity, charges, values symbolic, 3 keys" % part)
     # 2. plans out of the spec
-    pdir, plans = ctx.tlc_plans(fam, "LRU_Gen", "LRU_Gen.cfg", num=ctx.q(250, 3000), depth=14)
+    pdir, plans = ctx.tlc_plans(fam, "LRU_Gen", "LRU_Gen.cfg", num=ctx.q(220, 3000), depth=14)
     # 3. execute against the real code
     binary = ctx.go_build("c04")
     out = ctx.harness(binary, ["-plans", pdir, "-out", ctx.path("seq.ndjson"), "-conc", ctx.path("conc.ndjson"),
-                         "-seed", ctx.seed, "-hist", ctx.q(200, 4000), "-nconc", ctx.q(60, 1500),
+                         "-seed", ctx.seed, "-hist", ctx.q(180, 4000), "-nconc", ctx.q(50, 1500),
                          "-nwide", ctx.q(40, 800), "-maxops", ctx.q(80, 200),
-                         "-nrace", ctx.q(100000, 1500000), "-nracekeep", ctx.q(3600, 60000), "-nbulk", ctx.q(150, 3000),
+                         "-nrace", ctx.q(100000, 1500000), "-nracekeep", ctx.q(3300, 60000), "-nbulk", ctx.q(150, 3000),
                          "-long", ctx.path("long.ndjson"), "-longchurn", ctx.q(65540, 131080), "-longtouch", ctx.q(65540, 131080),
-                         "-nshape", ctx.q(100, -1)],
+                         "-nshape", ctx.q(80, -1)],
                 traces=[ctx.path("seq.ndjson"), ctx.path("conc.ndjson"), ctx.path("long.ndjson")])
     # 4. validate what the real code did
     seq = ctx.load_traces(ctx.path("seq.ndjson"))
@@ -60,6 +63,14 @@ def run(ctx):
     ]
     return ctx.finish(
         rule="plans = TLC simulation of LRU.tla (distinct by content); histories = seeded random over "
-             "2..13 keys, sizes 0..cap+3, capacities 0..12, 5 key types; a trace is one cache lifetime",
-        explanation="LRU.tla model-checked exhaustively; every call's reply and full Keys/Items/Stats "
-                    "projection recorded from the real caches must be a step of the spec")
+             "2..13 keys, sizes 0..cap+3, capacities 0..12 and capacities around counter widths (255..257, "
+             "65535..65537, 2^24, 2^30, MaxInt64 carried as 2^30) with charges in proportion; 6 key "
+             "representations (one of them look-alike keys of 28 dynamic kinds incl. nil and typed nil), "
+             "11 value kinds (uncomparable slice/map/func, nil, typed nil); reconfiguration histories "
+             "(one block of calls through SetCapacity down/up/0/Clear and back), shape-class histories "
+             "(13 shapes x 13 structural operations), long runs (run-length encoded, 2^16+ evicting "
+             "insertions / touches per cache type, Length/Size past 256); a trace is one cache lifetime",
+        explanation="LRU.tla model-checked exhaustively (incl. its functional form FDo = Do and the lemma that "
+                    "no method reads the eviction counter); every call's reply and full Keys/Items/Stats "
+                    "projection recorded from the real caches must be a step of the spec; returned lists are "
+                    "kept as returned, rendered late for half of the histories and written over once rendered")
